@@ -1,6 +1,6 @@
 SPECIFICATION Spec
 CONSTANTS
-  ShtabBreaksDefaults = {"A"}
+  ShtabBreaksDefaults = {"A", "B"}
   ClearOnError = FALSE
   Full = FALSE
   Emit = FALSE
